@@ -206,11 +206,15 @@ def resolve_loops(ob, gb, wd):
             continue
         fk, n = u.rsplit(":", 1)
         f, k = fk.split("#")
+        optional = k.endswith("?")   # func#k?:N -- skip silently when the loop does not exist in this configuration
+        k = k.rstrip("?")
         if f not in loops:   # public names may or may not carry the libcperciva_ prefix (header #defines)
             alt = f[len("libcperciva_"):] if f.startswith("libcperciva_") else "libcperciva_" + f
             if alt in loops:
                 f = alt
         ls = sorted(loops.get(f, []))
+        if int(k) >= len(ls) and optional:
+            continue
         if int(k) >= len(ls):
             return None, "loop %s not found (function has %d loops)" % (fk, len(ls))
         out.append("%s.%d:%s" % (f, ls[int(k)][1], n))
